@@ -1033,6 +1033,9 @@ impl CanonicalizeContext {
 							// "lift" the child up so all the links (e.g., siblings) are correct
 							mathml.replace_children(new_mathml.children());
 							set_mathml_name(mathml, name(&new_mathml));
+							if new_mathml.attribute(CHANGED_ATTR).is_none() {
+								mathml.remove_attribute(CHANGED_ATTR);
+							}
 							add_attrs(mathml, &new_mathml.attributes());
 							return Some(mathml);
 						} else if parent_requires_child {
@@ -1109,6 +1112,10 @@ impl CanonicalizeContext {
 					let child = as_element(children[0]);
 					mathml.replace_children(child.children());
 					set_mathml_name(mathml, name(&child));
+					if child.attribute(CHANGED_ATTR).is_none() {
+						// 'mathml' now stands for the child: a mark saying the mrow was added must not end up on a real token
+						mathml.remove_attribute(CHANGED_ATTR);
+					}
 					add_attrs(mathml, &child.attributes());
 					return Some(mathml);		// child has already been cleaned, so we can return
 				}
